@@ -61,9 +61,13 @@ Fixpoint to_events (k : N) (es : list ievent) : list revent :=
   | IDeps l :: r => RDeps (number k l) :: to_events (k + N.of_nat (List.length l)) r
   end.
 
-(* impl: crashed (child process died / timed out), failed (an error was returned), the groups as
-   (destination, nonces) sorted by destination. *)
-Inductive case := Case (p : path) (ies : list ievent) (crashed failed : bool) (impl : list (N * list N)).
+(* impl: crashed (child process died / timed out - the child runs the real HandleEvents AND feeds what
+   arrives on the message channel to sygma-core's real Relayer.Start/route over fake destination chains),
+   failed (an error was returned), the groups as (destination, nonces) sorted by destination = what each
+   destination chain received through route; sent = the batches as they arrived on the message channel,
+   each message as Some (its destination, nonce) or None (a nil *message.Message), sorted. *)
+Inductive case := Case (p : path) (ies : list ievent) (crashed failed : bool) (impl : list (N * list N))
+                       (sent : list (list (option (N * N)))).
 
 Definition to_groups (l : list (N * list N)) : groups :=
   map (fun kn => (fst kn, map (fun n => (fst kn, n)) (snd kn))) l.
@@ -82,13 +86,29 @@ Definition groups_eqb (a b : groups) : bool :=
 Definition impl_result (failed : bool) (impl : list (N * list N)) : result :=
   if failed then Failed else Done (to_groups impl).
 
+Definition omsg_eqb (a b : option msg) : bool :=
+  match a, b with Some x, Some y => msg_eqb x y | None, None => true | _, _ => false end.
+
+Fixpoint batch_eqb (a b : batch) : bool :=
+  match a, b with
+  | [], [] => true
+  | x :: a', y :: b' => omsg_eqb x y && batch_eqb a' b'
+  | _, _ => false
+  end.
+
+(* the batches on the channel are the model's groups, one batch each (the order of arrival is the
+   goroutine scheduler's / Go's map order) *)
+Definition sent_eqb (g : groups) (sent : list batch) : bool :=
+  Nat.eqb (List.length g) (List.length sent) &&
+  forallb (fun b => existsb (batch_eqb b) sent) (batches_of g).
+
 Definition agree (c : case) : bool :=
   match c with
-  | Case p ies crashed failed impl =>
+  | Case p ies crashed failed impl sent =>
       let es := to_events 1 ies in
       negb crashed &&
       match run p es, impl_result failed impl with
-      | Done g, Done g' => groups_eqb g g'
+      | Done g, Done g' => groups_eqb g g' && sent_eqb g sent
       | Failed, Failed => true
       | _, _ => false
       end
@@ -96,7 +116,8 @@ Definition agree (c : case) : bool :=
 
 Definition judge (c : case) : bool :=
   match c with
-  | Case p ies crashed failed impl => Model.C06.spec_ok p (to_events 1 ies) crashed (impl_result failed impl)
+  | Case p ies crashed failed impl sent =>
+      Model.C06.spec_ok p (to_events 1 ies) crashed (impl_result failed impl) && sent_ok sent
   end.
 
 Definition is_bad (x : Model.C06.deposit * status) : bool := match fst x with Bad _ => true | _ => false end.
@@ -104,7 +125,7 @@ Definition is_bad (x : Model.C06.deposit * status) : bool := match fst x with Ba
 (* branch tag: path x (some poisoned deposit present?) x (some message owed?) *)
 Definition tag (c : case) : N :=
   match c with
-  | Case p ies _ _ _ =>
+  | Case p ies _ _ _ _ =>
       let es := to_events 1 ies in
       (match p with EvmDeposits => 0 | SubDeposits => 4 | BtcDeposits => 8 | EvmRetryV1 => 12 | SubRetry => 16 end)
       + (if existsb is_bad (flat es) then 2 else 0)
